@@ -31,8 +31,32 @@ sys.exit(1 if res.get("ok") is False else 0)
 '''
 
 
+FP64_TEMPLATE = '''#!/venv/bin/python
+"""Replay of an fp64 counter-model found by cvc5.  property: {prop}  obligation: {name}"""
+import os, sys, math
+sys.path.insert(0, os.environ.get("HGV_REPO", {repo!r}))
+import histogrammar as hg
+m = {model!r}
+x = m["x"]
+try:
+    if "numf" in m:
+        h = hg.Bin(int(m["numf"]), m["low"], m["high"], lambda v: v)
+    else:
+        h = hg.SparselyBin(m["bw"], lambda v: v, origin=m["origin"])
+    h.fill(x)
+except Exception as e:
+    print("VIOLATED: fill(%r) raised %r for %r" % (x, e, m)); sys.exit(1)
+parts = ([v.entries for v in h.values] + [h.underflow.entries, h.overflow.entries, h.nanflow.entries]) if "numf" in m else ([v.entries for v in h.bins.values()] + [h.nanflow.entries])
+if sorted(parts)[-1] != 1.0 or sum(parts) != 1.0 or h.entries != 1.0:
+    print("VIOLATED: datum %r not routed to exactly one bin: %r" % (x, parts)); sys.exit(1)
+print("no violation for the counter-model", m); sys.exit(0)
+'''
+
+
 def build_script(prop, name, recs):
     _, function, clause = name.split("/", 2)
+    if recs and recs[0].get("fp64") and recs[0].get("model"):
+        return FP64_TEMPLATE.format(prop=prop, name=name, repo=REPO, model=recs[0]["model"])
     if recs and recs[0].get("bounded"):
         return NATIVE_TEMPLATE.format(prop=prop, name=name, repo=REPO, verif=VERIF, check=recs[0]["native_check"])
     model = json.dumps([{k: r.get(k) for k in ("path", "variant", "verdict", "model")} for r in recs], indent=1)
